@@ -614,7 +614,7 @@ def cli_cases(tier, rng):
     subsets = [[n for i, n in enumerate(names) if (m >> i) & 1] for m in range(32)]
     out = [cli_case(format(w, "05b"), s) for s in subsets for w in range(32)]
     # independent keys per source: the algorithm from one source, the method from another
-    for _ in range(100 if tier == "quick" else 1500):
+    for _ in range(100 if tier == "quick" else 4000):
         c = {"level": "cli", "W": "".join(rng.choice("01") if rng.random() < 0.5 else "0" for _ in range(5)), "xdg": None, "P": [], "L": [], "E": [], "C": []}
         for name in names:
             kv = []
@@ -788,7 +788,7 @@ def run(chk, replay=None):
             api += split
             nexh += len(split)
             split = []
-        api += [random_api(rng, dkeys) for _ in range(5000 if quick else 60000)] if dkeys else []
+        api += [random_api(rng, dkeys) for _ in range(5000 if quick else 200000)] if dkeys else []
         cli += cli_cases(tier, rng)
     dist = {"api_corpus": ncorpus[0], "cli_corpus": ncorpus[1], "api_exhaustive_realised": 0, "api_exhaustive_model_only": len(split),
             "api_random": 0, "cli": len(cli), "api_panic_or_unjudged": 0, "overrides": 0}
@@ -860,7 +860,7 @@ def run(chk, replay=None):
                    " ".join("-c " + x for x in cli[-1]["C"]), cli[-1]["xdg"], cli[-1]["P"], cli[-1]["L"], cli[-1]["E"]))
 
     # 7. shrink, classify, report
-    reported, seen_klass = 0, set()
+    reported, seen_klass, seen_inputs, attempts = 0, set(), set(), 0
     for kind, c, f, om, orr in bad_api:
         if reported >= 3 and kind != "oracle":
             continue
@@ -869,8 +869,9 @@ def run(chk, replay=None):
             k0 = klass_api(c, f)
             if k0 is not None and k0 in seen_klass:
                 continue
-            if k0 is None and reported >= 3:
+            if k0 is None and (reported >= 3 or attempts >= 12):
                 continue
+            attempts += k0 is None
 
             def fails(x, aspect=f["aspect"], key=f["key"], k0=k0):
                 _, o = run_confdrv(confdrv, [api_line(x)], shards=1)
@@ -884,6 +885,10 @@ def run(chk, replay=None):
             kl = klass_api(s, f2)
             if kl is not None and kl in seen_klass:
                 continue
+            sig = json.dumps([s, f2["aspect"], f2["key"]], sort_keys=True)
+            if sig in seen_inputs:
+                continue
+            seen_inputs.add(sig)
             if kl:
                 seen_klass.add(kl)
             elif reported >= 3:
@@ -909,6 +914,9 @@ def run(chk, replay=None):
                 k0 = klass_cli(c, ob)
                 if k0 is not None and k0 in seen_klass:
                     continue
+                if k0 is None and (reported >= 3 or attempts >= 20):
+                    continue
+                attempts += k0 is None
 
                 def fails(x, k0=k0):
                     e, _ = cli_expect_oracle(x)
@@ -924,6 +932,10 @@ def run(chk, replay=None):
                 kl = klass_cli(s, ob2)
                 if kl is not None and kl in seen_klass:
                     continue
+                sig = json.dumps(s, sort_keys=True)
+                if sig in seen_inputs:
+                    continue
+                seen_inputs.add(sig)
                 if kl:
                     seen_klass.add(kl)
                 elif reported >= 3:
